@@ -8,7 +8,9 @@ package main
 
 import (
 	"encoding/json"
+	"errors"
 	"fmt"
+	"hash/crc32"
 	"os"
 	"path/filepath"
 	"sync"
@@ -18,6 +20,9 @@ import (
 	"verifh/cluster"
 	"verifh/common"
 	"verifh/linz"
+	"verifh/simsched"
+
+	"github.com/DistCompiler/pgo/distsys"
 )
 
 func toOps(h []adapters.HistOp) []linz.Op {
@@ -51,10 +56,21 @@ func main() {
 	runs := r.Pick(120, 5000)
 	evals, steps, aborts, crashes, answers, opsDone, opsAll, retrans := 0, 0, 0, 0, 0, 0, 0, 0
 	labels := map[string]int{}
+	onlyI := -1
+	if v := os.Getenv("C14_ONLY_I"); v != "" { // development aid: re-execute one case of a larger run
+		fmt.Sscan(v, &onlyI)
+		runs = onlyI + 1
+	}
 	common.Parallel(runs, 8, func(i int) {
+		if onlyI >= 0 && i != onlyI {
+			return
+		}
 		seed := r.Seed*3_000_017 + int64(i)
 		rng := r.Rand(fmt.Sprintf("c14-%d", i))
 		nr := 1 + i%4
+		if v := os.Getenv("C14_NR"); v != "" { // development aid
+			fmt.Sscan(v, &nr)
+		}
 		o := adapters.PbkvsOpts{NR: nr, NC: 1 + rng.Intn(3), Exact: false, Keys: 1 + rng.Intn(2), PutPct: 60, MaxOps: 6 + rng.Intn(10),
 			CrashPct: uint(2 + rng.Intn(30)), MaxCrash: rng.Intn(nr)}
 		if i%3 == 0 && nr >= 3 {
@@ -90,7 +106,7 @@ func main() {
 			return map[string]any{"opts": o, "seed": seed, "steps": out.StepLog, "history": h}
 		}
 		if out.Result.Err != nil && !out.Result.MonitorErr {
-			r.Report("C14:sim:archetype-error", fmt.Sprintf("%v (NR=%d seed=%d)", out.Result.Err, nr, seed), wit())
+			r.Report(errKey(out.Result), fmt.Sprintf("%v (NR=%d seed=%d)", out.Result.Err, nr, seed), wit())
 		}
 		for _, v := range out.Violations {
 			r.Report(v.Key, v.Desc, wit())
@@ -224,6 +240,16 @@ func main() {
 		"perfect failure detector and LeaderElection = smallest live replica, as in the spec's instantiation; the shipped Go LeaderElection resource is a stub that always answers 1, so fail-over cannot be exercised over TCP and is covered in simulation only",
 		"crash oracle: a mayFail branch fires with a seeded probability, never for the last live replica",
 	})
+}
+
+// errKey keys an archetype error by what failed and where: an assertion of the spec by the label it is in.
+func errKey(res simsched.RunResult) string {
+	where := res.ErrLabel
+	if errors.Is(res.Err, distsys.ErrAssertionFailed) {
+		// label + checksum of the assertion's text: another assertion in the same label is a different key
+		return fmt.Sprintf("C14:sim:spec-assertion-failed:%s:%08x", where, crc32.ChecksumIEEE([]byte(res.Err.Error())))
+	}
+	return "C14:sim:archetype-error:" + where
 }
 
 func anyPut(h []linz.Op) bool {
